@@ -296,3 +296,18 @@ Definition run (E : env) (st : conn) (evs : list event) : conn := fold_left (ste
 Definition serve (E : env) (evs : list event) : conn := run E conn0 evs.
 
 Definition output (st : conn) : list bytes := rev (out st).
+
+(* ---------------------------------------------------------------- several connections of one server *)
+(* every connection has its own handler object (buffer, send lock, socket); an event is addressed to one of them;
+   Es k stands for what the shared dispatcher answered to the requests of connection k *)
+Fixpoint upd {A} (n : nat) (f : A -> A) (l : list A) : list A :=
+  match l, n with
+  | [], _ => []
+  | x :: r, O => f x :: r
+  | x :: r, S n' => x :: upd n' f r
+  end.
+
+Definition sys_step (Es : nat -> env) (S : list conn) (e : nat * event) : list conn :=
+  upd (fst e) (fun st => step (Es (fst e)) st (snd e)) S.
+Definition sys_run (Es : nat -> env) (S : list conn) (evs : list (nat * event)) : list conn :=
+  fold_left (sys_step Es) evs S.
